@@ -186,7 +186,9 @@ DemuxFold(I, Tl, i, acc) ==
          IN DemuxFold(I, Tl, i + 1,
                 acc \o (IF e.t = "c" THEN <<XEv("c", e.k, None, i)>> ELSE <<>>)
                     \o mapped
-                    \o (IF e.t = "d" THEN <<XEv("d", e.k, None, i)>> ELSE <<>>))
+                    \o (IF e.t = "d" THEN <<XEv("d", e.k, None, i)>> ELSE <<>>)
+                    \* an error event of the parent key goes round the inner pipeline as well
+                    \o (IF e.t = "e" THEN <<XEv("e", e.k, e.v, i)>> ELSE <<>>))
 
 DemuxViol(op, I, Tl, O, pre, i) ==
     LET ex == DemuxFold(I, Tl, 1, <<>>)
